@@ -18,6 +18,9 @@ def main():
             cnt[v.bucket] += 1
             if v.bucket not in buckets or len(v.message) < len(buckets[v.bucket]):
                 buckets[v.bucket] = v.message
+                import os
+                if os.environ.get("DEV_SHOW") and os.environ["DEV_SHOW"] in v.bucket:
+                    open("/tmp/dev_case.json", "w").write(common.jdump({"case": case, "bucket": v.bucket}))
     t()
     for b, m in buckets.items():
         print(f"[{cnt[b]}] {b}\n     {m[:int(sys.argv[4]) if len(sys.argv)>4 else 400]}\n")
